@@ -299,7 +299,7 @@ def atheris_campaign(sh, runs, max_time):
 
 
 def plan(tier):
-    return {"shards": 16, "examples": 1200 if tier == "quick" else 30000, "depths": [3, 6] if tier == "quick" else [3, 4, 5, 6], "pair_depths": [5] if tier == "quick" else [3, 4, 5, 6], "fuzz_runs": 30000 if tier == "quick" else 3000000, "fuzz_time": 20 if tier == "quick" else 420, "wall_limit": 300 if tier == "quick" else 2400}
+    return {"shards": 16, "examples": 1200 if tier == "quick" else 30000, "depths": [4, 8] if tier == "quick" else [3, 4, 6, 8, 12, 16], "pair_depths": [4, 8] if tier == "quick" else [3, 5, 8, 12], "fuzz_runs": 30000 if tier == "quick" else 3000000, "fuzz_time": 20 if tier == "quick" else 420, "wall_limit": 300 if tier == "quick" else 2400}
 
 
 def run_shard(sh):
